@@ -5,17 +5,24 @@ from harness import lts_check
 from vlib import paths
 ID = 'C04'
 RUNNER = 'LTS'
-COQ_ROOTS = ['Props/C04.v', 'Props/E2E.v', 'GenProps/Session_consts.v']
+COQ_ROOTS = ['Props/C04.v', 'Props/C04_hist.v', 'Props/E2E.v', 'GenProps/Session_consts.v', 'GenProps/C04_consts.v']
 RULE = ('A case is (scenario, schedule): client programs (sync/async requests, take_notification, await-disconnect), a scripted '
         'server (replies in any order, duplicates, unknown/missing ids, notifications, unknown messages, EOF/error) and the list of '
         'scheduler decisions at every synchronisation point (lock acquire, event set/wait, queue put/get, connected read, '
         'read/write/select, close). Small scenarios are enumerated depth-first with a pre-emption bound, larger ones are '
-        'random. Distinct = distinct (scenario, decision list); non-trivial = at least one request was registered.')
+        'random. Distinct = distinct (scenario, decision list); non-trivial = at least one request was registered. '
+        'Direct families on the real SSHSession / TLSSession / UnixSocketSession classes, free-running threads: real_end (loss with one '
+        'request outstanding, stand-in sockets); real_hist = (transport, history of ONE session object before its successful connect: '
+        'failed connect attempts of every kind, close(), the manager\'s clean-up, in any order; number of outstanding requests; kind of '
+        'loss) against real in-process SSH / TLS / Unix peers; real_backlog = (transport, transport slow or not writable, number of '
+        'pipelined asynchronous requests x threads queued unsent, synchronous callers, loss): every call returns or raises within its '
+        'timeout, every request accepted before the loss is failed with a transport error.')
 ASSUMES = ['CPython executes the code between two instrumented synchronisation points atomically with respect to the other managed threads (GIL + cooperative scheduler)',
            'uuid4 message-ids are unique (fresh-id oracle of the LTS; a trace violating it is rejected by the model)',
            'threading.Event/Lock/queue.Queue/selectors behave as the instrumented stand-ins (tools/harness/sched.py)']
 TRUSTED = ['modelled, not verified: threading, queue, selectors, the in-memory transport; inbound framing is composed with the LTS (Props/E2E.v, byte-level replay of the recorded reads by tools/harness/e2e_check.py; the concrete classifier of message texts Model/Classify.v is a scanner, the theorems hold for every classifier), outbound framing is C02',
-           'tools/harness/sched.py, lts.py, lts_check.py (scheduler, effect log -> label mapping, oracles)']
+           'tools/harness/sched.py, lts.py, lts_check.py (scheduler, effect log -> label mapping, oracles)',
+           'tools/harness/real_end.py, real_hist.py, real_backlog.py, c12_peers.py (stand-in sockets, in-process SSH/TLS/Unix peers, wall-clock bounds: a failing case is repeated once before it is reported)']
 
 def _corpus():
     out = []
@@ -26,19 +33,83 @@ def _corpus():
         out.append(d)
     return out
 
+# ---- direct families on the real transport classes (no scheduler): histories of one session object, backlog of unsent requests
+def _families():
+    from harness import real_hist, real_backlog
+    return {'real_hist': real_hist, 'real_backlog': real_backlog}
+
+def _direct_cases(tier, rng):
+    fam = _families()
+    H, B = fam['real_hist'], fam['real_backlog']
+    if tier == 'quick':
+        hs = H.core_cases() + [H.gen_case(rng, kind) for kind in H.KINDS + (rng.choice(H.KINDS),)]
+        bs = B.core_cases() + [B.gen_case(rng) for _ in range(2)]
+    else:
+        hs = H.all_cases() + [H.gen_case(rng) for _ in range(60)]
+        bs = B.all_cases() + [B.gen_case(rng) for _ in range(30)]
+    return [('real_hist', c) for c in hs] + [('real_backlog', c) for c in bs]
+
+def _judge(name, case):
+    c = {k: v for k, v in case.items() if k != 'check' and not k.startswith('_')}
+    f = _families()[name].judge(c)
+    return f, dict(check=name, **{k: v for k, v in c.items() if not k.startswith('_')}), {k: v for k, v in c.items() if k.startswith('_')}
+
+def run_direct(ctx):
+    H = _families()['real_hist']
+    hmodel = H.hist_model(ctx)
+    tie = []
+    for name, case in _direct_cases(ctx.tier, ctx.rng):
+        f, rec, info = _judge(name, case)
+        if name == 'real_hist' and hmodel is not None:
+            tie.append((rec, info.get('_flags')))
+        ctx.count(rec, key=[name, rec])
+        ctx.hist(name, '%s/%s' % (rec['kind'], rec.get('writable') or len(rec.get('steps', []))))
+        if name == 'real_hist':
+            for st in rec['steps']: ctx.hist('hist_step', '/'.join(st))
+        if f and f.startswith('rig:'):
+            ctx.note(f)
+        elif f:
+            ctx.fail(rec, f, sig=None, expected='property %s' % ID, actual=f)
+    if tie:
+        outs = hmodel.batch([H.model_call(rec) for rec, _ in tie])
+        for (rec, flags), mo in zip(tie, outs):
+            d = H.compare(rec, flags, mo)
+            ctx.traces += 1
+            if d:
+                ctx.disagree(rec, 'Model/SessionHist.v predicts the flags of the session object', d, 'flags of the real object along the history',
+                             theorem='C04_hist_fresh_start')
+
 def run(ctx):
     q = ctx.tier == 'quick'
+    run_direct(ctx)
     lts_check.check(ctx, ID, n_random=500 if q else 6000, dfs_bound=2 if q else 3, dfs_cap=350 if q else 6000, corpus=_corpus())
 
 def search(ctx, seeds):
+    for name, case in _direct_cases('quick', ctx.rng):
+        f, rec, info = _judge(name, case)
+        if f and not f.startswith('rig:'):
+            return dict(case=rec, what=f, sig=None, expected='property %s' % ID, actual=f)
     return lts_check.search(ctx, ID, seeds)
 
 def reproduce(finding):
     w = finding['witness']
+    if w.get('check') in ('real_hist', 'real_backlog'):
+        return _judge(w['check'], w)[0]
     w['spec']['clients'] = [[tuple(op) for op in ops] for ops in w['spec']['clients']]
     w['spec']['server'] = [tuple(a) for a in w['spec']['server']]
     sc = lts_check.run_case(w['spec'], decisions=list(w['decisions']), rng_after=False)
     return lts_check.ORACLES[ID](sc) is not None
 
 def replay(doc):
+    c = doc['case']
+    if c.get('check') in ('real_hist', 'real_backlog'):
+        f, rec, info = _judge(c['check'], c)
+        print('case      :', rec)
+        print('expected  : property %s holds (every call returns or raises within its timeout; outstanding requests fail with a '
+              'transport error promptly; the session reports itself disconnected; later requests are refused)' % ID)
+        print('actual    :', f or 'holds', info or '')
+        return f is None
+    if c.get('check') == 'real_end':
+        f = lts_check.real_end_case()
+        print('real_end :', f or 'holds'); return f is None
     return lts_check.replay(doc, ID)
